@@ -66,7 +66,10 @@ Lemma violates_ag ev x p : violates ev x p = negb (ag_allowed (aggregate_results
 Proof. unfold violates. now rewrite ag_allowed_forallb. Qed.
 
 Lemma prefix_app s b : String.prefix s (s ++ b) = true.
-Proof. induction s as [|c s IH]; [now destruct b|]. simpl. now rewrite Ascii.eqb_refl. Qed.
+Proof.
+  induction s as [|c s IH]; [now destruct b|]. simpl.
+  destruct (Ascii.ascii_dec c c) as [_|N]; [exact IH|now elim N].
+Qed.
 
 Lemma contains_app s a b : contains s (a ++ s ++ b) = true.
 Proof.
@@ -166,25 +169,884 @@ Qed.
 
 (** * The cache of EvaluatePod *)
 
+(** every entry of a cache pairs a key with the evaluator's aggregate on that key *)
 Definition cache_sound (ev : evaluator) (p : pod) (c : cache) : Prop :=
-  forall k a, cache_get k c = Some a -> a = aggregate_results (ev k p).
+  Forall (fun ka : lv * aggregate => snd ka = aggregate_results (ev (fst ka) p)) c.
+
+Lemma cache_get_sound ev p c k a :
+  cache_sound ev p c -> cache_get k c = Some a -> a = aggregate_results (ev k p).
+Proof.
+  induction 1 as [|[k' a'] c Hx Hc IH]; cbn [cache_get]; [discriminate|].
+  destruct (lv_eqb k k') eqn:E; [|exact IH].
+  apply lv_eqb_eq in E. subst k'. intros [= <-]. exact Hx.
+Qed.
 
 Lemma cache_sound_nil ev p : cache_sound ev p [].
-Proof. intros k a H. discriminate. Qed.
-
+Proof. constructor. Qed.
+Lemma cache_sound_one ev p k : cache_sound ev p [(k, aggregate_results (ev k p))].
+Proof. repeat constructor. Qed.
 Lemma cache_sound_snoc ev p c k :
   cache_sound ev p c -> cache_sound ev p (c +:+ [(k, aggregate_results (ev k p))]).
+Proof. intros H. apply Forall_app. split; [exact H|apply cache_sound_one]. Qed.
+
+(** * EvaluatePod in flat form *)
+
+Definition violates_msg (ev : evaluator) (x : lv) (p : pod) : string :=
+  "violates PodSecurity " ++ go_quote (lv_string x) ++ ": " ++ detail_of ev x p.
+Definition would_violate_msg (ev : evaluator) (x : lv) (p : pod) : string :=
+  "would violate PodSecurity " ++ go_quote (lv_string x) ++ ": " ++ detail_of ev x p.
+
+(** the response, from: no label errors? enforce applies? enforce/audit/warn violated? *)
+Definition epr_resp (errs_nil em vE vA vW : bool) (emsg estr amsg wmsg : string) : response :=
+  let allowed := negb (em && vE) in
+  Response allowed (if allowed then None else Some 403%Z) (if allowed then "" else "Forbidden")
+    (if allowed then "" else emsg) []
+    (if allowed && vW then [wmsg] else [])
+    ((if errs_nil then [] else [("error", "Failed to parse policy: ")])
+     +:+ (if em then [("enforce-policy", estr)] else [])
+     +:+ (if vA then [("audit-violations", amsg)] else []))
+    Fresh.
+(** the trace; [hitA], [hitW]: the audit / warn result came from the cache *)
+Definition epr_trace (errs_nil em vE vA vW hitA hitW : bool) (e a w : lv) (n : string) : list event :=
+  (if errs_nil then [] else [MError false])
+  +:+ (if em then [EvEval e n; MEval vE e ModeEnforce] else [])
+  +:+ (if hitA then [] else [EvEval a n]) +:+ (if vA then [MEval true a ModeAudit] else [])
+  +:+ (if negb (em && vE)
+       then (if hitW then [] else [EvEval w n]) +:+ (if vW then [MEval true w ModeWarn] else [])
+       else []).
+
+Definition epr_flat (c : config) (ev : evaluator) (pol : policy) (errs : list ferr) (p : pod) (em : bool)
+  : response * list event :=
+  let e := enforce pol in let a := audit pol in let w := warn pol in
+  let hitA := em && lv_eqb a e in
+  let hitW := (em && lv_eqb w e) || (negb hitA && lv_eqb w a) in
+  (epr_resp (is_nil errs) em (violates ev e p) (violates ev a p) (violates ev w p)
+            (violates_msg ev e p) (lv_string e) (would_violate_msg ev a p) (would_violate_msg ev w p),
+   epr_trace (is_nil errs) em (violates ev e p) (violates ev a p) (violates ev w p) hitA hitW e a w (pd_name p)).
+
+(** every cached lookup in [evaluate_pod_request] returns the aggregate of the
+    evaluator on that key: the two caches the function builds are sound, hence a
+    hit is indistinguishable (in the response) from a fresh evaluation; only the
+    [EvEval] events of the trace tell ([hitA], [hitW] of [epr_flat]). *)
+Lemma evaluate_pod_request_cache_sound (c : config) (ev : evaluator) (pol : policy) (errs : list ferr) (p : pod) (em : bool) :
+  let cached : cache := if em then [(enforce pol, aggregate_results (ev (enforce pol) p))] else [] in
+  let cached2 := match cache_get (audit pol) cached with
+                 | Some _ => cached
+                 | None => cached +:+ [(audit pol, aggregate_results (ev (audit pol) p))]
+                 end in
+  cache_sound ev p cached /\ cache_sound ev p cached2 /\
+  (forall k a, cache_get k cached = Some a -> a = aggregate_results (ev k p)) /\
+  (forall k a, cache_get k cached2 = Some a -> a = aggregate_results (ev k p)) /\
+  (exempt_runtimeclass c (pd_runtimeClass p) = false ->
+   evaluate_pod_request c ev pol errs p em = epr_flat c ev pol errs p em).
 Proof.
-  intros Hc. induction c as [|[k' a'] c IH]; intros k0 a0; cbn [app cache_get].
-  - destruct (lv_eqb k0 k) eqn:E; [|discriminate].
-    apply lv_eqb_eq in E. subst k0. now intros [= <-].
-  - destruct (lv_eqb k0 k') eqn:E.
-    + intros H. apply (Hc k0 a0). cbn [cache_get]. now rewrite E.
-    + apply IH. intros k1 a1 H1. destruct (lv_eqb k1 k') eqn:E1.
-      * apply lv_eqb_eq in E1. subst k1. apply (Hc k' a1). cbn [cache_get].
-        rewrite lv_eqb_refl.
-        (* k' is shadowed by the head; the tail entry is never returned for k' *)
-        specialize (Hc k' a'). cbn [cache_get] in Hc. rewrite lv_eqb_refl in Hc.
-        rewrite (Hc eq_refl). f_equal. symmetry.
-        (* a1 = aggregate (ev k' p) is not derivable from the tail alone *)
-        Abort.
+  intros cached cached2.
+  assert (S1 : cache_sound ev p cached).
+  { subst cached. destruct em; [apply cache_sound_one|apply cache_sound_nil]. }
+  assert (S2 : cache_sound ev p cached2).
+  { subst cached2. destruct (cache_get (audit pol) cached); [exact S1|now apply cache_sound_snoc]. }
+  split; [exact S1|]. split; [exact S2|].
+  split; [intros k a; now apply cache_get_sound|].
+  split; [intros k a; now apply cache_get_sound|].
+  intros Hrc. unfold evaluate_pod_request, epr_flat. rewrite Hrc.
+  rewrite !violates_ag. unfold violates_msg, would_violate_msg, detail_of.
+  destruct pol as [e a w]. cbn [enforce audit warn].
+  assert (Hsym : forall x y, lv_eqb x y = false -> lv_eqb y x = false).
+  { intros x y H. destruct (lv_eqb y x) eqn:E; [|reflexivity].
+    apply lv_eqb_eq in E. subst y. now rewrite lv_eqb_refl in H. }
+  destruct em; cbn [andb negb orb cache_get];
+  (destruct (lv_eqb a e) eqn:Hae; [apply lv_eqb_eq in Hae; subst a|]);
+  (destruct (lv_eqb w e) eqn:Hwe; [apply lv_eqb_eq in Hwe; subst w|]);
+  try (destruct (lv_eqb w a) eqn:Hwa; [apply lv_eqb_eq in Hwa; subst w|]);
+  try (rewrite lv_eqb_refl in *; discriminate);
+  destruct (ag_allowed (aggregate_results (ev e p))) eqn:HE;
+  try (destruct (ag_allowed (aggregate_results (ev a p))) eqn:HA);
+  try (destruct (ag_allowed (aggregate_results (ev w p))) eqn:HW);
+  repeat first
+    [ progress cbn [rs_allowed allowed_fresh forbidden cache_get app andb orb negb]
+    | rewrite lv_eqb_refl
+    | match goal with
+      | H : _ = true |- _ => rewrite H
+      | H : _ = false |- _ => rewrite H
+      | H : lv_eqb ?x ?y = false |- context [lv_eqb ?y ?x] => rewrite (Hsym x y H)
+      end ];
+  destruct errs; reflexivity.
+Qed.
+
+Lemma evaluate_pod_request_flat c ev pol errs p em :
+  exempt_runtimeclass c (pd_runtimeClass p) = false ->
+  evaluate_pod_request c ev pol errs p em = epr_flat c ev pol errs p em.
+Proof. apply evaluate_pod_request_cache_sound. Qed.
+
+Lemma evaluate_pod_request_exempt c ev pol errs p em :
+  exempt_runtimeclass c (pd_runtimeClass p) = true ->
+  evaluate_pod_request c ev pol errs p em = (shared_runtimeclass, [MExempt]).
+Proof. intros H. unfold evaluate_pod_request. now rewrite H. Qed.
+
+(** ** the observables of the flat response *)
+
+Lemma epr_resp_allowed n em vE vA vW emsg estr amsg wmsg :
+  rs_allowed (epr_resp n em vE vA vW emsg estr amsg wmsg) = negb (em && vE).
+Proof. reflexivity. Qed.
+Lemma epr_resp_warnings n em vE vA vW emsg estr amsg wmsg :
+  rs_warnings (epr_resp n em vE vA vW emsg estr amsg wmsg) = if negb (em && vE) && vW then [wmsg] else [].
+Proof. reflexivity. Qed.
+Lemma epr_resp_ann_enforce n em vE vA vW emsg estr amsg wmsg :
+  ann "enforce-policy" (epr_resp n em vE vA vW emsg estr amsg wmsg) = if em then Some estr else None.
+Proof. destruct n, em, vA; reflexivity. Qed.
+Lemma epr_resp_ann_audit n em vE vA vW emsg estr amsg wmsg :
+  ann "audit-violations" (epr_resp n em vE vA vW emsg estr amsg wmsg) = if vA then Some amsg else None.
+Proof. destruct n, em, vA; reflexivity. Qed.
+Lemma epr_resp_ann_error n em vE vA vW emsg estr amsg wmsg :
+  ann "error" (epr_resp n em vE vA vW emsg estr amsg wmsg) = if n then None else Some "Failed to parse policy: ".
+Proof. destruct n, em, vA; reflexivity. Qed.
+Lemma epr_resp_ann_exempt n em vE vA vW emsg estr amsg wmsg :
+  ann "exempt" (epr_resp n em vE vA vW emsg estr amsg wmsg) = None.
+Proof. destruct n, em, vA; reflexivity. Qed.
+Lemma epr_resp_denied n vA vW emsg estr amsg wmsg :
+  let r := epr_resp n true true vA vW emsg estr amsg wmsg in
+  rs_code r = Some 403%Z /\ rs_reason r = "Forbidden" /\ rs_message r = emsg.
+Proof. repeat split. Qed.
+
+(** * Pod requests that reach evaluation *)
+
+Lemma evaluated_pod_inv c r w ls p :
+  evaluated_pod c r w = Some (ls, p) ->
+  is_pods r = true /\ mem (r_subresource r) ignored_pod_subresources = false
+  /\ exempt_namespace c (r_namespace r) = false /\ exempt_user c (r_user r) = false
+  /\ w_ns w = Some ls /\ r_object r = OPod p /\ exempt_runtimeclass c (pd_runtimeClass p) = false
+  /\ (is_update (r_op r) = false \/
+      (is_update (r_op r) = true /\ exists old, r_old r = OPod old /\ significant_update p old = true)).
+Proof.
+  unfold evaluated_pod.
+  destruct (is_pods r); [|discriminate].
+  destruct (s_ignored_sub (r_subresource r)) eqn:Hsub; [discriminate|].
+  destruct (s_exempt (r_namespace r) (cf_ex_namespaces c)) eqn:Hns; [discriminate|].
+  destruct (s_exempt (r_user r) (cf_ex_users c)) eqn:Hu; [discriminate|].
+  cbn [negb andb].
+  destruct (w_ns w) as [ls0|]; [|discriminate].
+  destruct (r_object r) as [m| |p0|n l|k t|o]; try discriminate.
+  destruct (s_exempt_rc c p0) eqn:Hrc; [discriminate|].
+  destruct (r_op r) as [| |raw].
+  - intros [= <- <-]. repeat split; try assumption; auto.
+  - destruct (r_old r) as [m| |old|n l|k t|o]; try discriminate.
+    rewrite <- significant_update_spec.
+    destruct (significant_update p0 old) eqn:Hs; [|discriminate].
+    intros [= <- <-]. repeat split; try assumption. right. split; [reflexivity|]. now exists old.
+  - intros [= <- <-]. repeat split; try assumption; auto.
+Qed.
+
+(** the observation of such a request, up to the decode events of the trace *)
+Lemma validate_evaluated_pod c ev r w ls p :
+  evaluated_pod c r w = Some (ls, p) ->
+  let pol := spec_policy ls (cf_defaults c) in
+  let errs := spec_errs ls in
+  exists pre, (pre = [EvNsLookup; EvDecode] \/ pre = [EvNsLookup; EvDecode; EvDecodeOld]) /\
+  validate c ev r w =
+    if is_nil errs && fully_privileged pol
+    then (shared_privileged, [EvNsLookup; MEval false (enforce pol) ModeEnforce])
+    else (fst (epr_flat c ev pol errs p true), pre +:+ snd (epr_flat c ev pol errs p true)).
+Proof.
+  intros H. apply evaluated_pod_inv in H.
+  destruct H as (Hp & Hsub & Hns & Hu & Hw & Ho & Hrc & Hop).
+  intros pol errs.
+  rewrite (validate_pods c ev r w Hp). unfold validate_pod.
+  rewrite Hsub, Hns, Hu, Hw, policy_to_evaluate_spec, Ho.
+  fold pol errs.
+  rewrite (evaluate_pod_request_flat c ev pol errs p true Hrc).
+  destruct Hop as [Hop|(Hop & old & Hold & Hsig)]; rewrite Hop.
+  - exists [EvNsLookup; EvDecode]. split; [now left|].
+    destruct (is_nil errs && fully_privileged pol); reflexivity.
+  - exists [EvNsLookup; EvDecode; EvDecodeOld]. split; [now right|].
+    rewrite Hold, Hsig. destruct (is_nil errs && fully_privileged pol); reflexivity.
+Qed.
+
+Lemma fst_validate_evaluated_pod c ev r w ls p :
+  evaluated_pod c r w = Some (ls, p) ->
+  let pol := spec_policy ls (cf_defaults c) in
+  let errs := spec_errs ls in
+  fst (validate c ev r w) =
+    if is_nil errs && fully_privileged pol then shared_privileged else fst (epr_flat c ev pol errs p true).
+Proof.
+  intros H pol errs. destruct (validate_evaluated_pod c ev r w ls p H) as (pre & _ & ->).
+  fold pol errs. now destruct (is_nil errs && fully_privileged pol).
+Qed.
+
+Lemma privileged_enforce_allows ev pol p :
+  ev_privileged_allows ev -> level_eqb (lv_level (enforce pol)) Privileged = true ->
+  violates ev (enforce pol) p = false.
+Proof.
+  intros Hev Hl. apply level_eqb_eq in Hl. unfold violates.
+  destruct (enforce pol) as [l v]. cbn [lv_level] in Hl. subst l. now rewrite Hev.
+Qed.
+
+Lemma has_prefix_privileged x :
+  level_eqb (lv_level x) Privileged = true -> has_prefix "privileged:" (lv_string x) = true.
+Proof. destruct x as [l v]. intros H. apply level_eqb_eq in H. cbn [lv_level] in H. subst l.
+  unfold lv_string. cbn [lv_level lv_version level_string]. destruct (version_string v); reflexivity.
+Qed.
+
+(** * C01 *)
+
+Lemma P01_model c ev r w : ev_privileged_allows ev -> P01 c ev r w (validate c ev r w) = true.
+Proof.
+  intros Hev. unfold P01.
+  destruct (evaluated_pod c r w) as [[ls p]|] eqn:He; [|reflexivity].
+  rewrite (fst_validate_evaluated_pod c ev r w ls p He).
+  set (pol := spec_policy ls (cf_defaults c)). set (errs := spec_errs ls). clearbody pol errs.
+  destruct (is_nil errs && fully_privileged pol) eqn:Hsc.
+  - apply andb_true_iff in Hsc. destruct Hsc as [_ Hfp].
+    unfold fully_privileged in Hfp. rewrite !andb_true_iff in Hfp. destruct Hfp as [[Hfe _] _].
+    rewrite (privileged_enforce_allows ev pol p Hev Hfe), Hfe. reflexivity.
+  - unfold epr_flat. cbn [fst]. rewrite epr_resp_allowed, epr_resp_ann_enforce. cbn [andb].
+    rewrite eqb_reflx. cbn [andb].
+    destruct (violates ev (enforce pol) p); cbn [negb imp orb andb epr_resp rs_code rs_reason rs_message opt_eqb].
+    + unfold violates_msg. rewrite contains_app.
+      change ((403 =? 403)%Z && ("Forbidden" =? "Forbidden") && true) with true. cbn [andb].
+      destruct (level_eqb (lv_level (enforce pol)) Privileged) eqn:Hl;
+        [now apply has_prefix_privileged|apply String.eqb_refl].
+    + destruct (level_eqb (lv_level (enforce pol)) Privileged) eqn:Hl;
+        [now apply has_prefix_privileged|apply String.eqb_refl].
+Qed.
+
+Lemma C01_allowed_iff_proof c ev r w ls p :
+  ev_privileged_allows ev -> evaluated_pod c r w = Some (ls, p) ->
+  rs_allowed (fst (validate c ev r w)) = forallb cr_allowed (ev (enforce (spec_policy ls (cf_defaults c))) p).
+Proof.
+  intros Hev He. rewrite (fst_validate_evaluated_pod c ev r w ls p He).
+  set (pol := spec_policy ls (cf_defaults c)). set (errs := spec_errs ls).
+  destruct (is_nil errs && fully_privileged pol) eqn:Hsc.
+  - apply andb_true_iff in Hsc. destruct Hsc as [_ Hfp].
+    unfold fully_privileged in Hfp. rewrite !andb_true_iff in Hfp. destruct Hfp as [[Hfe _] _].
+    pose proof (privileged_enforce_allows ev pol p Hev Hfe) as Hv. unfold violates in Hv.
+    apply negb_false_iff in Hv. now rewrite Hv.
+  - unfold epr_flat. cbn [fst]. rewrite epr_resp_allowed. cbn [andb]. unfold violates.
+    now rewrite negb_involutive.
+Qed.
+
+Lemma C01_denial_is_403_proof c ev r w ls p :
+  evaluated_pod c r w = Some (ls, p) -> rs_allowed (fst (validate c ev r w)) = false ->
+  rs_code (fst (validate c ev r w)) = Some 403%Z /\ rs_reason (fst (validate c ev r w)) = "Forbidden"%string.
+Proof.
+  intros He. rewrite (fst_validate_evaluated_pod c ev r w ls p He).
+  set (pol := spec_policy ls (cf_defaults c)). set (errs := spec_errs ls).
+  destruct (is_nil errs && fully_privileged pol); [discriminate|].
+  unfold epr_flat. cbn [fst]. rewrite epr_resp_allowed. cbn [andb].
+  destruct (violates ev (enforce pol) p); [|discriminate]. intros _. split; reflexivity.
+Qed.
+
+(** without the hypothesis on the evaluator the short circuit for fully
+    privileged namespaces contradicts the evaluator *)
+Definition deny_all : evaluator := fun _ _ => [CR false "no" ""].
+Definition cex_pod : pod := Pod "p" [] None false false false None None None [] [] [] [] None.
+Definition cex_cfg : config :=
+  Config (Policy (LV Privileged Latest) (LV Privileged Latest) (LV Privileged Latest)) [] [] [] 10 1000.
+Definition cex_req : request := Request "" "pods" "" "ns" "p" "u" OpCreate (OPod cex_pod) ONil None.
+Definition cex_world : world := World (Some []) "" None None 0.
+Lemma C01_verdict_needs_hyp_proof :
+  P01 cex_cfg deny_all cex_req cex_world (validate cex_cfg deny_all cex_req cex_world) = false.
+Proof. vm_compute. reflexivity. Qed.
+
+(** * Controller requests that reach evaluation *)
+
+Lemma evaluated_object_inv c r w ls p enforced :
+  evaluated_object c r w = Some (ls, p, enforced) ->
+  (enforced = true /\ evaluated_pod c r w = Some (ls, p)) \/
+  (enforced = false /\ is_controller r = true /\ r_subresource r = ""
+   /\ exempt_namespace c (r_namespace r) = false /\ exempt_user c (r_user r) = false
+   /\ w_ns w = Some ls /\ extract_pod_spec (r_object r) = Some (Some p)
+   /\ (forall m, r_object r <> ODecodeErr m)
+   /\ exempt_runtimeclass c (pd_runtimeClass p) = false).
+Proof.
+  unfold evaluated_object.
+  destruct (evaluated_pod c r w) as [[ls0 p0]|]; [intros [= <- <- <-]; now left|].
+  destruct (is_controller r); [|discriminate].
+  destruct (String.eqb_spec (r_subresource r) "") as [Hsub|]; [|discriminate].
+  destruct (s_exempt (r_namespace r) (cf_ex_namespaces c)) eqn:Hns; [discriminate|].
+  destruct (s_exempt (r_user r) (cf_ex_users c)) eqn:Hu; [discriminate|].
+  cbn [negb andb].
+  destruct (w_ns w) as [ls0|]; [|discriminate].
+  destruct (r_object r) as [m| |p0|n l|k [t|]|o]; try discriminate;
+    (destruct (s_exempt_rc c _) eqn:Hrc; [discriminate|]);
+    intros [= <- <- <-]; right; repeat split; try assumption; try reflexivity; intros m; discriminate.
+Qed.
+
+Definition controller_short_circuit (errs : list ferr) (pol : policy) : bool :=
+  is_nil errs && level_eqb (lv_level (warn pol)) Privileged && level_eqb (lv_level (audit pol)) Privileged.
+
+Lemma validate_evaluated_controller c ev r w ls p :
+  evaluated_object c r w = Some (ls, p, false) ->
+  let pol := spec_policy ls (cf_defaults c) in
+  let errs := spec_errs ls in
+  validate c ev r w =
+    if controller_short_circuit errs pol then (shared_allowed, [EvNsLookup])
+    else (fst (epr_flat c ev pol errs p false), [EvNsLookup; EvDecode] +:+ snd (epr_flat c ev pol errs p false)).
+Proof.
+  intros H. apply evaluated_object_inv in H.
+  destruct H as [[H _]|(_ & Hc & Hsub & Hns & Hu & Hw & Ho & Hd & Hrc)]; [discriminate|].
+  intros pol errs.
+  rewrite (validate_controllers c ev r w Hc). unfold validate_controller.
+  rewrite Hsub, Hns, Hu, Hw, policy_to_evaluate_spec.
+  fold pol errs. unfold controller_short_circuit. cbn [String.eqb negb].
+  destruct (is_nil errs && level_eqb (lv_level (warn pol)) Privileged
+            && level_eqb (lv_level (audit pol)) Privileged); [reflexivity|].
+  destruct (r_object r) as [m| |p0|n l|k t|o]; cbn [extract_pod_spec] in *; try discriminate.
+  - injection Ho as ->. now rewrite (evaluate_pod_request_flat c ev pol errs p false Hrc).
+  - injection Ho as ->. now rewrite (evaluate_pod_request_flat c ev pol errs p false Hrc).
+Qed.
+
+(** * C08 *)
+
+Lemma P08_model c ev r w : P08 c ev r w (validate c ev r w) = true.
+Proof.
+  unfold P08.
+  destruct (evaluated_object c r w) as [[[ls p] enforced]|] eqn:He; [|reflexivity].
+  destruct (evaluated_object_inv c r w ls p enforced He) as [[-> Hp]|[-> _]].
+  - rewrite (fst_validate_evaluated_pod c ev r w ls p Hp).
+    set (pol := spec_policy ls (cf_defaults c)). set (errs := spec_errs ls). clearbody pol errs.
+    change (s_fully_privileged pol) with (fully_privileged pol).
+    destruct (is_nil errs && fully_privileged pol); [reflexivity|].
+    unfold epr_flat. cbn [fst].
+    rewrite epr_resp_allowed, epr_resp_warnings, epr_resp_ann_audit. cbn [andb].
+    rewrite eqb_reflx. cbn [andb].
+    unfold would_violate_msg.
+    now rewrite list_string_eqb_refl, opt_string_eqb_refl.
+  - rewrite (validate_evaluated_controller c ev r w ls p He).
+    set (pol := spec_policy ls (cf_defaults c)). set (errs := spec_errs ls). clearbody pol errs.
+    unfold controller_short_circuit. rewrite <- andb_assoc.
+    destruct (is_nil errs && (level_eqb (lv_level (warn pol)) Privileged && level_eqb (lv_level (audit pol)) Privileged));
+      [reflexivity|].
+    unfold epr_flat. cbn [fst].
+    rewrite epr_resp_allowed, epr_resp_warnings, epr_resp_ann_audit. cbn [andb negb eqb].
+    unfold would_violate_msg.
+    now rewrite list_string_eqb_refl, opt_string_eqb_refl.
+Qed.
+
+(** ** the allow bit of a pod request is a function of the enforce part of the policy *)
+
+(** what the allow bit is outside the fully-privileged short circuit *)
+Definition pod_allow_expr (c : config) (ev : evaluator) (r : request) (e : lv) : bool :=
+  mem (r_subresource r) ignored_pod_subresources
+  || exempt_namespace c (r_namespace r) || exempt_user c (r_user r)
+  || match r_object r with
+     | OPod p =>
+         if is_update (r_op r)
+         then match r_old r with
+              | OPod old => negb (significant_update p old)
+                            || exempt_runtimeclass c (pd_runtimeClass p) || negb (violates ev e p)
+              | _ => false
+              end
+         else exempt_runtimeclass c (pd_runtimeClass p) || negb (violates ev e p)
+     | _ => false
+     end.
+
+Lemma evaluate_pod_request_allowed c ev pol errs p em :
+  rs_allowed (fst (evaluate_pod_request c ev pol errs p em))
+  = exempt_runtimeclass c (pd_runtimeClass p) || negb (em && violates ev (enforce pol) p).
+Proof.
+  destruct (exempt_runtimeclass c (pd_runtimeClass p)) eqn:Hrc.
+  - now rewrite evaluate_pod_request_exempt.
+  - now rewrite evaluate_pod_request_flat.
+Qed.
+
+Lemma validate_pod_allowed c ev r w ls :
+  w_ns w = Some ls ->
+  let pol := spec_policy ls (cf_defaults c) in
+  rs_allowed (fst (validate_pod c ev r w))
+  = pod_allow_expr c ev r (enforce pol)
+    || (negb (mem (r_subresource r) ignored_pod_subresources
+              || exempt_namespace c (r_namespace r) || exempt_user c (r_user r))
+        && is_nil (spec_errs ls) && fully_privileged pol).
+Proof.
+  intros Hw pol. unfold validate_pod, pod_allow_expr.
+  destruct (mem (r_subresource r) ignored_pod_subresources); [reflexivity|].
+  destruct (exempt_namespace c (r_namespace r)); [reflexivity|].
+  destruct (exempt_user c (r_user r)); [reflexivity|].
+  rewrite Hw, policy_to_evaluate_spec. fold pol. cbn [orb negb andb].
+  destruct (is_nil (spec_errs ls) && fully_privileged pol); [now rewrite orb_true_r|].
+  rewrite orb_false_r.
+  destruct (r_object r) as [m| |p|n l|k t|o]; try reflexivity.
+  destruct (is_update (r_op r)).
+  - destruct (r_old r) as [m| |old|n l|k t|o]; try reflexivity.
+    destruct (significant_update p old); [|reflexivity]. cbn [negb orb].
+    pose proof (evaluate_pod_request_allowed c ev pol (spec_errs ls) p true) as H.
+    destruct (evaluate_pod_request c ev pol (spec_errs ls) p true) as [resp tr]. exact H.
+  - pose proof (evaluate_pod_request_allowed c ev pol (spec_errs ls) p true) as H.
+    destruct (evaluate_pod_request c ev pol (spec_errs ls) p true) as [resp tr]. exact H.
+Qed.
+
+Lemma validate_controller_allowed c ev r w : rs_allowed (fst (validate_controller c ev r w)) = true.
+Proof.
+  unfold validate_controller.
+  destruct (negb (String.eqb (r_subresource r) "")); [reflexivity|].
+  destruct (exempt_namespace c (r_namespace r)); [reflexivity|].
+  destruct (exempt_user c (r_user r)); [reflexivity|].
+  destruct (w_ns w) as [ls|]; [|reflexivity].
+  rewrite policy_to_evaluate_spec.
+  destruct (is_nil (spec_errs ls) && level_eqb (lv_level (warn (spec_policy ls (cf_defaults c)))) Privileged
+            && level_eqb (lv_level (audit (spec_policy ls (cf_defaults c)))) Privileged); [reflexivity|].
+  destruct (r_object r) as [m| |p|n l|k [p|]|o]; try reflexivity; cbn [extract_pod_spec];
+  pose proof (evaluate_pod_request_allowed c ev (spec_policy ls (cf_defaults c)) (spec_errs ls) p false) as H;
+  destruct (evaluate_pod_request c ev (spec_policy ls (cf_defaults c)) (spec_errs ls) p false) as [resp tr];
+  cbn [fst] in *; rewrite H; cbn [andb negb]; apply orb_true_r.
+Qed.
+
+Lemma C09_never_denied_proof c ev r w : is_controller r = true -> rs_allowed (fst (validate c ev r w)) = true.
+Proof. intros H. rewrite (validate_controllers c ev r w H). apply validate_controller_allowed. Qed.
+
+(** with a well-behaved evaluator and decodable objects the short circuit agrees with the expression *)
+Lemma pod_allow_expr_privileged c ev r e :
+  ev_privileged_allows ev -> pod_request_decodes r -> is_pods r = true ->
+  level_eqb (lv_level e) Privileged = true -> pod_allow_expr c ev r e = true.
+Proof.
+  intros Hev Hd Hp Hl. destruct (Hd Hp) as [[p Ho] Hold].
+  assert (Hv : violates ev e p = false).
+  { apply level_eqb_eq in Hl. destruct e as [l v]. cbn [lv_level] in Hl. subst l.
+    unfold violates. now rewrite Hev. }
+  unfold pod_allow_expr. rewrite Ho.
+  destruct (is_update (r_op r)).
+  - destruct (Hold eq_refl) as [old ->]. rewrite Hv. cbn [negb]. now rewrite !orb_true_r.
+  - rewrite Hv. cbn [negb]. now rewrite !orb_true_r.
+Qed.
+
+Lemma C08_allow_independent_proof c ev r w w' ls ls' :
+  w_ns w = Some ls -> w_ns w' = Some ls' ->
+  enforce (spec_policy ls (cf_defaults c)) = enforce (spec_policy ls' (cf_defaults c)) ->
+  is_namespaces r = false ->
+  ev_privileged_allows ev -> pod_request_decodes r ->
+  rs_allowed (fst (validate c ev r w)) = rs_allowed (fst (validate c ev r w')).
+Proof.
+  intros Hw Hw' He Hn Hev Hd.
+  destruct (request_class r) as [(H & _)|[(_ & Hp & _)|(_ & _ & Hc)]]; [congruence| |].
+  - rewrite !(validate_pods _ _ _ _ Hp).
+    rewrite (validate_pod_allowed c ev r w ls Hw), (validate_pod_allowed c ev r w' ls' Hw'), <- He.
+    assert (forall pol b, enforce pol = enforce (spec_policy ls (cf_defaults c)) ->
+              pod_allow_expr c ev r (enforce (spec_policy ls (cf_defaults c))) || (b && fully_privileged pol)
+              = pod_allow_expr c ev r (enforce (spec_policy ls (cf_defaults c)))) as Hx.
+    { intros pol b Hpe. destruct (fully_privileged pol) eqn:Hfp; [|now rewrite andb_false_r, orb_false_r].
+      unfold fully_privileged in Hfp. rewrite !andb_true_iff in Hfp. destruct Hfp as [[Hfe _] _].
+      rewrite Hpe in Hfe. rewrite (pod_allow_expr_privileged c ev r _ Hev Hd Hp Hfe). reflexivity. }
+    rewrite !Hx by congruence. reflexivity.
+  - now rewrite !C09_never_denied_proof.
+Qed.
+
+(** the same conclusion with no hypothesis on the evaluator or the objects, when
+    both worlds take (or both do not take) the fully-privileged short circuit *)
+Lemma C08_allow_independent_same_shortcut_proof c ev r w w' ls ls' :
+  w_ns w = Some ls -> w_ns w' = Some ls' ->
+  enforce (spec_policy ls (cf_defaults c)) = enforce (spec_policy ls' (cf_defaults c)) ->
+  is_namespaces r = false ->
+  is_nil (spec_errs ls) && fully_privileged (spec_policy ls (cf_defaults c))
+  = is_nil (spec_errs ls') && fully_privileged (spec_policy ls' (cf_defaults c)) ->
+  rs_allowed (fst (validate c ev r w)) = rs_allowed (fst (validate c ev r w')).
+Proof.
+  intros Hw Hw' He Hn Hsc.
+  destruct (request_class r) as [(H & _)|[(_ & Hp & _)|(_ & _ & Hc)]]; [congruence| |].
+  - rewrite !(validate_pods _ _ _ _ Hp).
+    rewrite (validate_pod_allowed c ev r w ls Hw), (validate_pod_allowed c ev r w' ls' Hw'), <- He.
+    rewrite <- !andb_assoc, Hsc. reflexivity.
+  - now rewrite !C09_never_denied_proof.
+Qed.
+
+(** counterexamples to the formulation without the two hypotheses: the
+    namespace of [w] is fully privileged, that of [w'] has the same enforce but
+    audit = baseline *)
+Definition cex_world_audit : world := World (Some [(audit_level_label, "baseline")]) "" None None 0.
+Definition cex_req_undecodable : request := Request "" "pods" "" "ns" "p" "u" OpCreate (ODecodeErr "boom") ONil None.
+Lemma C08_allow_independent_needs_decode_proof :
+  enforce (spec_policy [] (cf_defaults cex_cfg)) = enforce (spec_policy [(audit_level_label, "baseline")] (cf_defaults cex_cfg))
+  /\ spec_errs [] = [] /\ spec_errs [(audit_level_label, "baseline")] = []
+  /\ ev_privileged_allows (fun _ _ => [])
+  /\ rs_allowed (fst (validate cex_cfg (fun _ _ => []) cex_req_undecodable cex_world)) = true
+  /\ rs_allowed (fst (validate cex_cfg (fun _ _ => []) cex_req_undecodable cex_world_audit)) = false.
+Proof. repeat split. Qed.
+Lemma C08_allow_independent_needs_ev_proof :
+  pod_request_decodes cex_req
+  /\ rs_allowed (fst (validate cex_cfg deny_all cex_req cex_world)) = true
+  /\ rs_allowed (fst (validate cex_cfg deny_all cex_req cex_world_audit)) = false.
+Proof.
+  split; [|split; reflexivity].
+  intros _. split; [now exists cex_pod|discriminate].
+Qed.
+
+(** * C18, admission half *)
+
+Definition is_metric (e : event) : bool :=
+  match e with MEval _ _ _ | MExempt | MError _ => true | _ => false end.
+
+(** the body of [P18_adm] for pod and controller requests; [ignored]: the
+    request is one of those that must record nothing *)
+Definition P18_core (ignored : bool) (o : obs) : bool :=
+  let resp := fst o in
+  let tr := snd o in
+  let n_enf := count_ev (is_meval ModeEnforce) tr in
+  let n_aud := count_ev (is_meval ModeAudit) tr in
+  let n_warn := count_ev (is_meval ModeWarn) tr in
+  let n_ex := count_ev is_mexempt tr in
+  let n_fatal := count_ev (is_merror true) tr in
+  let n_metrics := n_enf + n_aud + n_warn + n_ex + n_fatal + count_ev (is_merror false) tr in
+  imp (is_some (ann "exempt" resp)) (Nat.eqb n_ex 1 && Nat.eqb n_metrics 1)
+  && imp (negb (is_some (ann "exempt" resp))) (Nat.eqb n_ex 0)
+  && Bool.eqb (is_some (ann "enforce-policy" resp)) (Nat.eqb n_enf 1) && Nat.leb n_enf 1
+  && forallb (fun e => match e with
+                       | MEval deny _ ModeEnforce => Bool.eqb deny (negb (rs_allowed resp))
+                       | _ => true end) tr
+  && Bool.eqb (is_some (ann "audit-violations" resp)) (Nat.eqb n_aud 1) && Nat.leb n_aud 1
+  && Bool.eqb (negb (is_nil (rs_warnings resp))) (Nat.eqb n_warn 1) && Nat.leb n_warn 1
+  && imp (Nat.eqb n_fatal 1) (has_error_ann resp && negb (has_eval tr))
+  && Nat.leb n_fatal 1
+  && imp ignored (Nat.eqb n_metrics 0).
+
+Lemma P18_adm_unfold c r w o :
+  P18_adm c r w o =
+  if is_namespaces r
+  then Nat.eqb (count_ev (is_meval ModeEnforce) (snd o) + count_ev (is_meval ModeAudit) (snd o)
+                + count_ev (is_meval ModeWarn) (snd o) + count_ev is_mexempt (snd o)
+                + count_ev (is_merror true) (snd o) + count_ev (is_merror false) (snd o)) 0
+  else P18_core ((is_pods r && s_ignored_sub (r_subresource r))
+                 || (is_controller r && negb (String.eqb (r_subresource r) ""))) o.
+Proof. reflexivity. Qed.
+
+Lemma count_ev_no_metric f tr :
+  (forall e, f e = true -> is_metric e = true) ->
+  forallb (fun e => negb (is_metric e)) tr = true -> count_ev f tr = 0.
+Proof.
+  intros Hf. unfold count_ev. induction tr as [|e tr IH]; [reflexivity|].
+  cbn [forallb filter]. rewrite andb_true_iff, negb_true_iff. intros [He Htr].
+  destruct (f e) eqn:Hfe; [apply Hf in Hfe; congruence|]. now apply IH.
+Qed.
+
+Lemma no_metric_evals x names :
+  forallb (fun e => negb (is_metric e)) (map (fun n => EvEval x n) names) = true.
+Proof. induction names as [|n names IH]; [reflexivity|exact IH]. Qed.
+
+Lemma evaluate_pods_in_namespace_no_metric c ev r w name x :
+  forallb (fun e => negb (is_metric e)) (snd (evaluate_pods_in_namespace c ev r w name x)) = true.
+Proof.
+  unfold evaluate_pods_in_namespace.
+  destruct (w_pods w) as [pods|]; [|reflexivity].
+  destruct (eval_loop ev x (w_expire_after w) 0 (firstn (cf_max_pods c) (prioritize_pods c pods)) [])
+    as [[m checked] names].
+  cbn [snd forallb is_metric negb andb]. apply no_metric_evals.
+Qed.
+
+Lemma validate_namespace_no_metric c ev r w :
+  forallb (fun e => negb (is_metric e)) (snd (validate_namespace c ev r w)) = true.
+Proof.
+  unfold validate_namespace.
+  destruct (negb (String.eqb (r_subresource r) "")); [reflexivity|].
+  destruct (r_object r) as [m| |p|name ls|k t|o]; try reflexivity.
+  destruct (policy_to_evaluate ls (cf_defaults c)) as [new_pol new_errs].
+  destruct (r_op r) as [| |raw]; [| |reflexivity].
+  - destruct (negb (is_nil new_errs)); [reflexivity|].
+    destruct (exempt_namespace c (r_namespace r)); reflexivity.
+  - destruct (r_old r) as [m| |p|oname old_ls|k t|o]; try reflexivity.
+    destruct (policy_to_evaluate old_ls (cf_defaults c)) as [old_pol old_errs].
+    destruct (negb (is_nil new_errs) && (is_nil old_errs || negb (ferrs_eqb new_errs old_errs))); [reflexivity|].
+    destruct (lv_eqb (enforce new_pol) (enforce old_pol)); [reflexivity|].
+    destruct (level_eqb (lv_level (enforce new_pol)) Privileged); [reflexivity|].
+    match goal with |- context [if ?b then (shared_allowed, _) else _] => destruct b end; [reflexivity|].
+    destruct (exempt_namespace c (r_namespace r)); [reflexivity|].
+    pose proof (evaluate_pods_in_namespace_no_metric c ev r w name (enforce new_pol)) as H.
+    destruct (evaluate_pods_in_namespace c ev r w name (enforce new_pol)) as [warns tr2].
+    cbn [snd] in *. exact H.
+Qed.
+
+Lemma P18_core_epr pre n em vE vA vW hitA hitW emsg estr amsg wmsg e a w nm :
+  pre = [EvNsLookup; EvDecode] \/ pre = [EvNsLookup; EvDecode; EvDecodeOld] ->
+  P18_core false (epr_resp n em vE vA vW emsg estr amsg wmsg,
+                  pre +:+ epr_trace n em vE vA vW hitA hitW e a w nm) = true.
+Proof. intros [->| ->]; destruct n, em, vE, vA, vW, hitA, hitW; reflexivity. Qed.
+
+Lemma P18_core_evaluate c ev pol errs p em pre :
+  pre = [EvNsLookup; EvDecode] \/ pre = [EvNsLookup; EvDecode; EvDecodeOld] ->
+  P18_core false (let '(resp, tr) := evaluate_pod_request c ev pol errs p em in (resp, pre +:+ tr)) = true.
+Proof.
+  intros Hpre. destruct (exempt_runtimeclass c (pd_runtimeClass p)) eqn:Hrc.
+  - rewrite evaluate_pod_request_exempt by exact Hrc. destruct Hpre as [->| ->]; reflexivity.
+  - rewrite evaluate_pod_request_flat by exact Hrc. unfold epr_flat. now apply P18_core_epr.
+Qed.
+
+Lemma P18_validate_pod c ev r w :
+  P18_core (mem (r_subresource r) ignored_pod_subresources) (validate_pod c ev r w) = true.
+Proof.
+  unfold validate_pod.
+  destruct (mem (r_subresource r) ignored_pod_subresources); [reflexivity|].
+  destruct (exempt_namespace c (r_namespace r)); [reflexivity|].
+  destruct (exempt_user c (r_user r)); [reflexivity|].
+  destruct (w_ns w) as [ls|]; [|reflexivity].
+  destruct (policy_to_evaluate ls (cf_defaults c)) as [pol errs].
+  destruct (is_nil errs && fully_privileged pol); [reflexivity|].
+  destruct (r_object r) as [m| |p|n l|k t|o]; try reflexivity.
+  destruct (is_update (r_op r)).
+  - destruct (r_old r) as [m| |old|n l|k t|o]; try reflexivity.
+    destruct (significant_update p old); [|reflexivity].
+    apply P18_core_evaluate. now right.
+  - apply P18_core_evaluate. now left.
+Qed.
+
+Lemma P18_validate_controller c ev r w :
+  P18_core (negb (String.eqb (r_subresource r) "")) (validate_controller c ev r w) = true.
+Proof.
+  unfold validate_controller.
+  destruct (negb (String.eqb (r_subresource r) "")); [reflexivity|].
+  destruct (exempt_namespace c (r_namespace r)); [reflexivity|].
+  destruct (exempt_user c (r_user r)); [reflexivity|].
+  destruct (w_ns w) as [ls|]; [|reflexivity].
+  destruct (policy_to_evaluate ls (cf_defaults c)) as [pol errs].
+  destruct (is_nil errs && level_eqb (lv_level (warn pol)) Privileged
+            && level_eqb (lv_level (audit pol)) Privileged); [reflexivity|].
+  destruct (r_object r) as [m| |p|n l|k [p|]|o]; try reflexivity; cbn [extract_pod_spec];
+    apply (P18_core_evaluate c ev pol errs p false [EvNsLookup; EvDecode]); now left.
+Qed.
+
+Lemma P18_adm_model c ev r w : P18_adm c r w (validate c ev r w) = true.
+Proof.
+  rewrite P18_adm_unfold.
+  destruct (request_class r) as [(Hn & _)|[(Hn & Hp & Hc)|(Hn & Hp & Hc)]]; rewrite Hn.
+  - rewrite (validate_namespaces c ev r w Hn).
+    pose proof (validate_namespace_no_metric c ev r w) as H.
+    rewrite (count_ev_no_metric (is_meval ModeEnforce) _ ltac:(intros [] ?; try reflexivity; discriminate) H).
+    rewrite (count_ev_no_metric (is_meval ModeAudit) _ ltac:(intros [] ?; try reflexivity; discriminate) H).
+    rewrite (count_ev_no_metric (is_meval ModeWarn) _ ltac:(intros [] ?; try reflexivity; discriminate) H).
+    rewrite (count_ev_no_metric is_mexempt _ ltac:(intros [] ?; try reflexivity; discriminate) H).
+    rewrite (count_ev_no_metric (is_merror true) _ ltac:(intros [] ?; try reflexivity; discriminate) H).
+    rewrite (count_ev_no_metric (is_merror false) _ ltac:(intros [] ?; try reflexivity; discriminate) H).
+    reflexivity.
+  - rewrite Hp, Hc, (validate_pods c ev r w Hp). cbn [andb orb].
+    rewrite orb_false_r. apply P18_validate_pod.
+  - rewrite Hp, Hc, (validate_controllers c ev r w Hc). cbn [andb orb].
+    apply P18_validate_controller.
+Qed.
+
+(** * C09: the bare pod of a controller's template *)
+
+Lemma spec_level_of_level_string l : spec_level_of (level_string l) = Some l.
+Proof. destruct l; reflexivity. Qed.
+
+Lemma spec_version_of_version_string v :
+  printable_version v = true -> spec_version_of (version_string v) = Some v.
+Proof.
+  destruct v as [|ma mi]; [reflexivity|].
+  destruct ma as [|[q|q|]]; try discriminate. cbn [printable_version]. intros Hn.
+  apply N.ltb_lt in Hn. pose proof (print_parse mi Hn) as H.
+  rewrite parse_version_spec in H.
+  destruct (spec_version_of (version_string (V 1 mi))) as [v|]; [|discriminate].
+  now injection H as ->.
+Qed.
+
+Lemma spec_version_of_printable s v : spec_version_of s = Some v -> printable_version v = true.
+Proof.
+  unfold spec_version_of. destruct (String.eqb s "latest"); [now intros [= <-]|].
+  destruct (strip_prefix "v1." s) as [r|]; [|discriminate].
+  destruct (canonical_digits r) as [n|]; [|discriminate].
+  destruct (N.ltb n 9223372036854775808) eqn:Hn; [|discriminate].
+  intros [= <-]. exact Hn.
+Qed.
+
+Lemma spec_version_printable m ls d :
+  policy_printable d = true -> printable_version (spec_version m ls d) = true.
+Proof.
+  unfold policy_printable. rewrite !andb_true_iff. intros [[He Ha] Hw].
+  unfold spec_version. destruct (lookup (version_key m) ls) as [s|].
+  - destruct (spec_version_of s) as [v|] eqn:Hs; [now apply spec_version_of_printable in Hs|reflexivity].
+  - destruct m; assumption.
+Qed.
+
+Lemma spec_policy_printable ls d : policy_printable d = true -> policy_printable (spec_policy ls d) = true.
+Proof.
+  intros Hd. unfold policy_printable, spec_policy. cbn [enforce audit warn lv_version lv_level].
+  rewrite !spec_version_printable by exact Hd. cbn [andb].
+  destruct (warn_follows ls d); cbn [lv_version]; [|now apply spec_version_printable].
+  destruct (lookup warn_version_label ls); now apply spec_version_printable.
+Qed.
+
+(** the namespace of the bare pod resolves to enforce = privileged (at the
+    default enforce version) and exactly the audit / warn parts it was built from *)
+Lemma spec_policy_bare pol d :
+  printable_version (lv_version (audit pol)) = true -> printable_version (lv_version (warn pol)) = true ->
+  spec_policy (bare_labels pol) d = Policy (LV Privileged (lv_version (enforce d))) (audit pol) (warn pol)
+  /\ spec_errs (bare_labels pol) = [].
+Proof.
+  intros Ha Hw.
+  assert (L1 : lookup enforce_level_label (bare_labels pol) = Some "privileged") by reflexivity.
+  assert (L2 : lookup enforce_version_label (bare_labels pol) = None) by reflexivity.
+  assert (L3 : lookup audit_level_label (bare_labels pol) = Some (level_string (lv_level (audit pol)))) by reflexivity.
+  assert (L4 : lookup audit_version_label (bare_labels pol) = Some (version_string (lv_version (audit pol)))) by reflexivity.
+  assert (L5 : lookup warn_level_label (bare_labels pol) = Some (level_string (lv_level (warn pol)))) by reflexivity.
+  assert (L6 : lookup warn_version_label (bare_labels pol) = Some (version_string (lv_version (warn pol)))) by reflexivity.
+  split.
+  - unfold spec_policy, warn_follows, spec_level, spec_version.
+    cbn [level_key version_key default_of].
+    rewrite L1, L2, L3, L4, L5, L6.
+    rewrite !spec_level_of_level_string, !spec_version_of_version_string by assumption.
+    change (spec_level_of "privileged") with (Some Privileged).
+    destruct (audit pol) as [al av], (warn pol) as [wl wv]. reflexivity.
+  - unfold spec_errs, spec_label_err.
+    rewrite L1, L2, L3, L4, L5, L6.
+    rewrite !spec_level_of_level_string, !spec_version_of_version_string by assumption.
+    reflexivity.
+Qed.
+
+Lemma validate_bare_pod c ev r w ls p :
+  policy_printable (cf_defaults c) = true ->
+  let pol := spec_policy ls (cf_defaults c) in
+  let pol' := Policy (LV Privileged (lv_version (enforce (cf_defaults c)))) (audit pol) (warn pol) in
+  validate c ev (bare_pod_request r p) (bare_pod_world c w ls) =
+    if exempt_namespace c (r_namespace r) then (shared_namespace, [MExempt]) else
+    if exempt_user c (r_user r) then (shared_user, [MExempt]) else
+    if level_eqb (lv_level (audit pol)) Privileged && level_eqb (lv_level (warn pol)) Privileged
+    then (shared_privileged, [EvNsLookup; MEval false (enforce pol') ModeEnforce])
+    else let '(resp, tr) := evaluate_pod_request c ev pol' [] p true in (resp, [EvNsLookup; EvDecode] +:+ tr).
+Proof.
+  intros Hd pol pol'.
+  pose proof (spec_policy_printable ls (cf_defaults c) Hd) as Hp. fold pol in Hp.
+  unfold policy_printable in Hp. rewrite !andb_true_iff in Hp. destruct Hp as [[_ Ha] Hw].
+  destruct (spec_policy_bare pol (cf_defaults c) Ha Hw) as [Hpol Herrs]. fold pol' in Hpol.
+  rewrite validate_pods by reflexivity. unfold validate_pod.
+  change (r_subresource (bare_pod_request r p)) with "".
+  change (r_namespace (bare_pod_request r p)) with (r_namespace r).
+  change (r_user (bare_pod_request r p)) with (r_user r).
+  change (mem "" ignored_pod_subresources) with false. cbv iota.
+  destruct (exempt_namespace c (r_namespace r)); [reflexivity|].
+  destruct (exempt_user c (r_user r)); [reflexivity|].
+  change (w_ns (bare_pod_world c w ls)) with (Some (bare_labels pol)). cbv iota.
+  rewrite policy_to_evaluate_spec, Hpol, Herrs.
+  change (is_nil (@nil ferr)) with true. cbn [andb].
+  change (fully_privileged pol') with
+    (level_eqb (lv_level (audit pol)) Privileged && level_eqb (lv_level (warn pol)) Privileged).
+  destruct (level_eqb (lv_level (audit pol)) Privileged && level_eqb (lv_level (warn pol)) Privileged);
+    reflexivity.
+Qed.
+
+(** the part of P09 that does not involve the bare pod *)
+Definition P09_base (r : request) (o : obs) : bool :=
+  rs_allowed (fst o)
+  && negb (existsb (is_meval ModeEnforce) (snd o)) && negb (is_some (ann "enforce-policy" (fst o)))
+  && imp (negb (String.eqb (r_subresource r) "") ||
+          match r_object r with OController _ None => true | _ => false end)
+         (is_nil (rs_warnings (fst o)) && negb (is_some (ann "audit-violations" (fst o))) && negb (has_eval (snd o))).
+
+Lemma P09_base_epr n vE vA vW hitA hitW emsg estr amsg wmsg e a w nm :
+  let o := (epr_resp n false vE vA vW emsg estr amsg wmsg,
+            [EvNsLookup; EvDecode] +:+ epr_trace n false vE vA vW hitA hitW e a w nm) in
+  rs_allowed (fst o) && negb (existsb (is_meval ModeEnforce) (snd o))
+  && negb (is_some (ann "enforce-policy" (fst o))) = true.
+Proof. destruct n, vE, vA, vW, hitA, hitW; reflexivity. Qed.
+
+Lemma P09_base_evaluate c ev pol errs p :
+  let o := (let '(resp, tr) := evaluate_pod_request c ev pol errs p false in (resp, [EvNsLookup; EvDecode] +:+ tr)) in
+  rs_allowed (fst o) && negb (existsb (is_meval ModeEnforce) (snd o))
+  && negb (is_some (ann "enforce-policy" (fst o))) = true.
+Proof.
+  destruct (exempt_runtimeclass c (pd_runtimeClass p)) eqn:Hrc.
+  - now rewrite evaluate_pod_request_exempt.
+  - rewrite evaluate_pod_request_flat by exact Hrc. apply P09_base_epr.
+Qed.
+
+Lemma P09_base_model c ev r w : P09_base r (validate_controller c ev r w) = true.
+Proof.
+  unfold P09_base, validate_controller.
+  destruct (String.eqb (r_subresource r) ""); cbn [negb]; [|reflexivity].
+  destruct (exempt_namespace c (r_namespace r)); [now destruct (r_object r) as [| | | |? [|]|]|].
+  destruct (exempt_user c (r_user r)); [now destruct (r_object r) as [| | | |? [|]|]|].
+  destruct (w_ns w) as [ls|]; [|now destruct (r_object r) as [| | | |? [|]|]].
+  destruct (policy_to_evaluate ls (cf_defaults c)) as [pol errs].
+  destruct (is_nil errs && level_eqb (lv_level (warn pol)) Privileged
+            && level_eqb (lv_level (audit pol)) Privileged); [now destruct (r_object r) as [| | | |? [|]|]|].
+  destruct (r_object r) as [m| |p|n l|k [p|]|o]; try reflexivity; cbn [extract_pod_spec orb imp negb];
+    rewrite andb_true_r; apply P09_base_evaluate.
+Qed.
+
+Lemma P09_bare_epr n n' vE vE' vA vW hitA hitW hitA' hitW' emsg estr emsg' estr' amsg wmsg e e' a w nm :
+  let o := (epr_resp n false vE vA vW emsg estr amsg wmsg,
+            [EvNsLookup; EvDecode] +:+ epr_trace n false vE vA vW hitA hitW e a w nm) in
+  let op := (epr_resp n' true vE' vA vW emsg' estr' amsg wmsg,
+             [EvNsLookup; EvDecode] +:+ epr_trace n' true vE' vA vW hitA' hitW' e' a w nm) in
+  imp (rs_allowed (fst op))
+      (list_eqb String.eqb (rs_warnings (fst o)) (rs_warnings (fst op))
+       && opt_eqb String.eqb (ann "audit-violations" (fst o)) (ann "audit-violations" (fst op))) = true.
+Proof.
+  cbn [fst]. rewrite !epr_resp_ann_audit, !epr_resp_warnings, epr_resp_allowed.
+  destruct vE'; [reflexivity|]. cbn [andb negb imp orb].
+  now rewrite list_string_eqb_refl, opt_string_eqb_refl.
+Qed.
+
+Lemma P09_bare_model c ev r w p ls :
+  is_controller r = true ->
+  request_pod r = Some p -> r_subresource r = "" -> w_ns w = Some ls -> spec_errs ls = [] ->
+  policy_printable (cf_defaults c) = true ->
+  let o := validate c ev r w in
+  let op := validate c ev (bare_pod_request r p) (bare_pod_world c w ls) in
+  imp (rs_allowed (fst op))
+      (list_eqb String.eqb (rs_warnings (fst o)) (rs_warnings (fst op))
+       && opt_eqb String.eqb (ann "audit-violations" (fst o)) (ann "audit-violations" (fst op))) = true.
+Proof.
+  intros Hc Hrp Hsub Hw Herrs Hd.
+  rewrite (validate_bare_pod c ev r w ls p Hd), (validate_controllers c ev r w Hc).
+  unfold validate_controller. rewrite Hsub. cbn [String.eqb negb].
+  destruct (exempt_namespace c (r_namespace r)); [reflexivity|].
+  destruct (exempt_user c (r_user r)); [reflexivity|].
+  rewrite Hw, policy_to_evaluate_spec, Herrs.
+  set (pol := spec_policy ls (cf_defaults c)).
+  set (pol' := Policy (LV Privileged (lv_version (enforce (cf_defaults c)))) (audit pol) (warn pol)).
+  clearbody pol. cbn [is_nil andb].
+  rewrite (andb_comm (level_eqb (lv_level (warn pol)) Privileged)).
+  destruct (level_eqb (lv_level (audit pol)) Privileged && level_eqb (lv_level (warn pol)) Privileged);
+    [reflexivity|].
+  assert (He : extract_pod_spec (r_object r) = Some (Some p) /\ forall m, r_object r <> ODecodeErr m).
+  { unfold request_pod in Hrp. destruct (r_object r) as [m| |p0|n l|k [p0|]|o]; try discriminate;
+      injection Hrp as ->; split; try reflexivity; intros m; discriminate. }
+  destruct He as [He Hnd].
+  assert (Hv : (match r_object r with
+                | ODecodeErr _ => (allowed_with_error "failed to decode object: ", [EvNsLookup; EvDecode; MError true])
+                | o => match extract_pod_spec o with
+                       | None => (allowed_with_error "failed to extract pod template: ", [EvNsLookup; EvDecode; MError true])
+                       | Some None => (shared_allowed, [EvNsLookup; EvDecode])
+                       | Some (Some p) =>
+                           let '(resp, tr) := evaluate_pod_request c ev pol [] p false in
+                           (resp, [EvNsLookup; EvDecode] +:+ tr)
+                       end
+                end) = (let '(resp, tr) := evaluate_pod_request c ev pol [] p false in
+                        (resp, [EvNsLookup; EvDecode] +:+ tr))).
+  { destruct (r_object r) as [m| |p0|n l|k t|o]; cbn [extract_pod_spec] in *; try discriminate;
+      try (exfalso; now apply (Hnd m)); now injection He as ->. }
+  rewrite Hv. clear Hv.
+  destruct (exempt_runtimeclass c (pd_runtimeClass p)) eqn:Hrc.
+  - rewrite !evaluate_pod_request_exempt by exact Hrc. reflexivity.
+  - rewrite !evaluate_pod_request_flat by exact Hrc. unfold epr_flat.
+    change (audit pol') with (audit pol). change (warn pol') with (warn pol).
+    apply P09_bare_epr.
+Qed.
+
+Lemma P09_model c ev r w (o_pod : option obs) :
+  (forall o, o_pod = Some o -> exists p ls,
+        request_pod r = Some p /\ r_subresource r = "" /\ w_ns w = Some ls /\ spec_errs ls = [] /\
+        o = validate c ev (bare_pod_request r p) (bare_pod_world c w ls)) ->
+  policy_printable (cf_defaults c) = true ->
+  P09 c ev r w (validate c ev r w) o_pod = true.
+Proof.
+  intros Ho Hd. unfold P09.
+  destruct (is_controller r) eqn:Hc; [|reflexivity]. cbn [negb].
+  pose proof (P09_base_model c ev r w) as Hb. rewrite <- (validate_controllers c ev r w Hc) in Hb.
+  unfold P09_base in Hb. rewrite Hb. cbn [andb].
+  destruct o_pod as [op|]; [|reflexivity].
+  destruct (Ho op eq_refl) as (p & ls & Hrp & Hsub & Hw & Herrs & ->).
+  now apply P09_bare_model.
+Qed.
+
+(** the bare pod of a controller request that carries a subresource is
+    evaluated although the controller request is not: the hypothesis
+    [r_subresource r = ""] on the related request cannot be dropped *)
+Definition cex_ev : evaluator := fun x _ => match lv_level x with Privileged => [] | _ => [CR false "no" ""] end.
+Definition cex_req_scale : request :=
+  Request "apps" "deployments" "scale" "ns" "d" "u" OpUpdate (OController "Deployment" (Some cex_pod)) ONil None.
+Definition cex_world_warn : world := World (Some [(warn_level_label, "baseline")]) "" None None 0.
+Lemma C09_controllers_needs_hyp_proof :
+  let ls := [(warn_level_label, "baseline")] in
+  request_pod cex_req_scale = Some cex_pod /\ w_ns cex_world_warn = Some ls /\ spec_errs ls = []
+  /\ policy_printable (cf_defaults cex_cfg) = true
+  /\ P09 cex_cfg cex_ev cex_req_scale cex_world_warn (validate cex_cfg cex_ev cex_req_scale cex_world_warn)
+         (Some (validate cex_cfg cex_ev (bare_pod_request cex_req_scale cex_pod)
+                         (bare_pod_world cex_cfg cex_world_warn ls))) = false.
+Proof. vm_compute. repeat split. Qed.
